@@ -196,7 +196,7 @@ pub fn run_real(f: &[&str]) -> Option<String> {
                     } else if ds.iter().any(|d| d.message.starts_with("Unable to ")) {
                         "err:io".to_string()
                     } else {
-                        { if before != after && std::env::var("HX_DEBUG").is_ok() { eprintln!("BEFORE {}\nAFTER {}\nDIAGS {:?}", &before[..before.len().min(300)], &after[..after.len().min(300)], ds.iter().map(|d| d.message.clone()).collect::<Vec<_>>()); } format!("diag:{}:{}{}", if before == after { "same" } else { "changed" }, flag(sb), flag(sa)) }
+                        format!("diag:{}:{}{}", if before == after { "same" } else { "changed" }, flag(sb), flag(sa))
                     }
                 }
             };
@@ -241,10 +241,13 @@ pub fn gen_real(r: &mut Rng, flavour: &str) -> Vec<String> {
         }
         "c19" => {
             for _ in 0..r.range(1, 2) {
-                if r.chance(1, 2) {
+                // make the faulted compile plan something: new sources or a new process
+                if r.chance(2, 3) {
                     toks.push(valid(r));
+                } else {
+                    toks.push("N".into());
                 }
-                let k = if r.chance(1, 2) { r.below(4) } else { r.below(14) };
+                let k = if r.chance(3, 5) { r.below(3) } else { r.below(12) };
                 toks.push(format!("F{}", k));
                 toks.push("C".into());
                 match r.below(4) {
